@@ -25,25 +25,44 @@ let decl_of_case (w : string list) : decl * odecl list =
        others in their group's declaration order, and that is all the difference *)
     let is_late o = o <> "" && o.[0] >= 'A' && o.[0] <= 'Z' in
     let opts = List.filter (fun o -> not (is_late o)) opts @ List.filter is_late opts in
+    (* a word of kind r re-requests an option that is already declared (same name, kind and group): it adds nothing to the
+       declaration order; the setters applied to the returned object update that one declaration.  The description passed
+       with a re-request is ignored *)
+    let by_name : (str, odecl ref) Hashtbl.t = Hashtbl.create 16 in
     List.iter (fun o ->
         match fields o with
         | [k; gi; name; short; descr; env; metavar; dflt; flag; rank] ->
           let k = String.lowercase_ascii k in
           let gi = int_of_string gi in
           if gi < 0 || gi > ng then raise Bad_case;
-          let b = { b_name = str_of_hex name;
-                    b_short = (if short = "-" then None else (match str_of_hex short with [c] -> Some c | _ -> raise Bad_case));
-                    b_descr = str_of_hex descr; b_env = str_of_hex env; b_metavar = str_of_hex metavar } in
+          let short = (if short = "-" then None else (match str_of_hex short with [c] -> Some c | _ -> raise Bad_case)) in
           let flag = (flag = "1") in
           let rest s = String.sub s 1 (String.length s - 1) in
-          let od = match k with
-            | "o" -> DOption (b, (if dflt.[0] = 's' then Some (str_of_hex (rest dflt)) else None), flag)
-            | "m" -> DMulti (b, (if dflt.[0] = 'l' then Some (strs_of_wire (rest dflt)) else None), flag)
-            | "t" -> DToggle (b, flag, dflt = "1")
-            | _ -> raise Bad_case in
-          per_group.(gi) <- od :: per_group.(gi);
-          if rank <> "-" then longs := (int_of_string rank, od) :: !longs
+          if k = "r" then begin
+            let r = (try Hashtbl.find by_name (str_of_hex name) with Not_found -> raise Bad_case) in
+            let upd b = { b with b_short = (match short with Some _ -> short | None -> b.b_short);
+                                 b_env = (if env = "-" then b.b_env else str_of_hex env);
+                                 b_metavar = (if metavar = "-" then b.b_metavar else str_of_hex metavar) } in
+            r := (match !r with
+                | DOption (b, d0, opt) -> DOption (upd b, (if dflt.[0] = 's' then Some (str_of_hex (rest dflt)) else d0), opt || flag)
+                | DMulti (b, d0, opt) -> DMulti (upd b, (if dflt.[0] = 'l' then Some (strs_of_wire (rest dflt)) else d0), opt || flag)
+                | DToggle (b, rev, d0) -> DToggle (upd b, rev || flag, (if dflt = "0" then false else if dflt = "1" then true else d0)))
+          end else begin
+            let b = { b_name = str_of_hex name; b_short = short;
+                      b_descr = str_of_hex descr; b_env = str_of_hex env; b_metavar = str_of_hex metavar } in
+            let od = match k with
+              | "o" -> DOption (b, (if dflt.[0] = 's' then Some (str_of_hex (rest dflt)) else None), flag)
+              | "m" -> DMulti (b, (if dflt.[0] = 'l' then Some (strs_of_wire (rest dflt)) else None), flag)
+              | "t" -> DToggle (b, flag, dflt = "1")
+              | _ -> raise Bad_case in
+            let r = ref od in
+            Hashtbl.replace by_name b.b_name r;
+            per_group.(gi) <- r :: per_group.(gi);
+            if rank <> "-" then longs := (int_of_string rank, r) :: !longs
+          end
         | _ -> raise Bad_case) opts;
+    let per_group = Array.map (List.map (fun r -> !r)) per_group in
+    let longs = ref (List.map (fun (k, r) -> (k, !r)) !longs) in
     let d = { d_app = str_of_hex app; d_about = str_of_hex about;
               d_default = { g_name = str_of_hex defname; g_descr = []; g_opts = List.rev per_group.(0) };
               d_groups = (let gs = List.mapi (fun i (n, ds, late) -> (late, { g_name = n; g_descr = ds; g_opts = List.rev per_group.(i + 1) })) gdefs in
